@@ -170,12 +170,14 @@ CHECKS = {
             plain("exhaustive", "^TestC10SinksExhaustive$"),
             rapid("fields", "^TestC10Fields$", 8000, 3),
             rapid("sinks", "^TestC10Sinks$", 15000, 1),
+            rapid("concurrent", "^TestC10Concurrent$", 400, 2, timeout=300, shrinktime="5s"),
         ],
         "thorough": [
             plain("regress", "^TestRegressC10"),
             plain("exhaustive", "^TestC10SinksExhaustive$"),
             rapid("fields", "^TestC10Fields$", 120000, 12, timeout=3000),
             rapid("sinks", "^TestC10Sinks$", 200000, 4, timeout=3000),
+            rapid("concurrent-race", "^TestC10Concurrent$", 2500, 4, race=True, timeout=3000),
         ],
     },
     "C11": {
@@ -198,12 +200,14 @@ CHECKS = {
             rapid("sequential", "^TestC12Sequential$", 1200, 4, timeout=150, shrinktime="5s"),
             rapid("concurrent", "^TestC12Concurrent$", 500, 2, timeout=150, shrinktime="5s"),
             rapid("crash", "^TestC12Crash$", 80, 2, timeout=150, shrinktime="5s"),
+            rapid("tickbusy", "^TestC12TickBusy$", 300, 1, timeout=150, shrinktime="5s"),
         ],
         "thorough": [
             plain("regress", "^TestRegressC12"),
             rapid("sequential", "^TestC12Sequential$", 40000, 12, timeout=3000),
             rapid("concurrent-race", "^TestC12Concurrent$", 2500, 8, race=True, timeout=3000),
             rapid("crash", "^TestC12Crash$", 300, 10, timeout=3000),
+            rapid("tickbusy", "^TestC12TickBusy$", 5000, 2, timeout=3000),
         ],
     },
     "C13": {
